@@ -42,7 +42,8 @@ from .loader import is_logging_call
 
 PURE_FUNCS = {'isinstance', 'issubclass', 'len', 'bool', 'int', 'float', 'str', 'abs', 'max', 'min',
               'getattr', 'hasattr', 'type', 'tuple', 'list', 'set', 'frozenset', 'sorted', 'any',
-              'all', 'sum', 'repr', 'callable', 'id'}
+              'all', 'sum', 'repr', 'callable', 'id', 'super', 'dict', 'range', 'enumerate', 'zip',
+              'reversed', 'iter', 'next'}
 PURE_METHODS = {'done', 'cancelled', 'is_initialized', 'is_ready', 'is_finalized', 'empty', 'qsize',
                 'get', 'keys', 'values', 'items', 'startswith', 'endswith', 'when', 'time',
                 'has_method', 'is_set', 'getblocks', 'intersection', 'union', 'difference', 'copy',
@@ -145,7 +146,48 @@ def _helper_kind(fn):
         return None, None
     if len(rets) == 1 and body[-1] is rets[0]:
         return 'procret', (body[:-1], rets[0].value)
+    # every exit is a `return <expr>` in tail position (if/else arms, try body / handlers / else,
+    # with bodies): the returns can be turned into assignments of the call's target
+    if all(r.value is not None for r in rets) and _all_tail(body, set(id(r) for r in rets)):
+        return 'tailret', body
     return None, None
+
+
+def _all_tail(stmts, ret_ids):
+    """Do all the given Return nodes sit in tail position of `stmts`, and does every path through
+    stmts end in one of them?"""
+    if not stmts:
+        return False
+    for st in stmts[:-1]:
+        if any(id(x) in ret_ids for x in ast.walk(st)):
+            return False
+    last = stmts[-1]
+    if isinstance(last, ast.Return):
+        return id(last) in ret_ids
+    if isinstance(last, ast.If):
+        return bool(last.orelse) and _all_tail(last.body, ret_ids) and _all_tail(last.orelse, ret_ids)
+    if isinstance(last, ast.Try) and not last.finalbody:
+        arms = [last.orelse if last.orelse else last.body] + [h.body for h in last.handlers]
+        if last.orelse and any(id(x) in ret_ids for st in last.body for x in ast.walk(st)):
+            return False
+        return all(_all_tail(a, ret_ids) for a in arms)
+    if isinstance(last, (ast.With, ast.AsyncWith)):
+        return _all_tail(last.body, ret_ids)
+    return False
+
+
+class _RetToAssign(ast.NodeTransformer):
+    def __init__(self, make):
+        self.make = make
+
+    def visit_Return(self, node):
+        return ast.copy_location(self.make(node.value), node)
+
+    def visit_FunctionDef(self, node):
+        return node
+
+    visit_AsyncFunctionDef = visit_FunctionDef
+    visit_Lambda = visit_FunctionDef
 
 
 def inline_new_helpers(tree: ast.Module, known: set) -> int:
@@ -292,7 +334,7 @@ def inline_new_helpers(tree: ast.Module, known: set) -> int:
                     v = v.value
                 if isinstance(v, ast.Call):
                     for name in cands:
-                        if is_call_of(v, name) and cands[name][4] in ('proc', 'procret'):
+                        if is_call_of(v, name) and cands[name][4] in ('proc', 'procret', 'tailret'):
                             kind, payload = cands[name][4], cands[name][5]
                             is_async_helper = isinstance(cands[name][1], ast.AsyncFunctionDef)
                             awaited = isinstance(st.value, ast.Await)
@@ -304,6 +346,16 @@ def inline_new_helpers(tree: ast.Module, known: set) -> int:
                             mapping, prelude = b
                             if kind == 'proc' and isinstance(st, ast.Expr):
                                 new = prelude + subst_body(payload, mapping)
+                            elif kind == 'tailret':
+                                body = subst_body(payload, mapping)
+                                if isinstance(st, ast.Assign):
+                                    tg = st.targets
+                                    mk = lambda val: ast.Assign(targets=copy.deepcopy(tg), value=val)
+                                elif isinstance(st, ast.Return):
+                                    mk = lambda val: ast.Return(value=val)
+                                else:
+                                    mk = lambda val: ast.Expr(value=val)
+                                new = prelude + [_RetToAssign(mk).visit(b_) for b_ in body]
                             elif kind == 'procret':
                                 body, rexpr = payload
                                 rexpr = _Subst(mapping).visit(copy.deepcopy(rexpr))
@@ -441,13 +493,30 @@ def inline_new_locals(fn, ref_names) -> int:
                     expr_names = _names_in(st.value)
                     ok = True
                     seen = 0
+                    # an attribute chain rooted at self that this function never stores to is
+                    # stable for the duration of the call: barriers do not matter
+                    chain = st.value
+                    while isinstance(chain, ast.Attribute):
+                        chain = chain.value
+                    stable_attr = isinstance(st.value, ast.Attribute) and isinstance(chain, ast.Name) \
+                        and chain.id == 'self' and not any(
+                            isinstance(z, ast.Attribute) and isinstance(z.ctx, (ast.Store, ast.Del)) and
+                            ast.unparse(z) == ast.unparse(st.value) for z in ast.walk(fn))
+                    # an expression over plain local names only denotes the same objects as long as
+                    # none of the names is re-bound
+                    locals_only = all(isinstance(z, (ast.Name, ast.Load, ast.Compare, ast.BoolOp, ast.UnaryOp,
+                                                     ast.cmpop, ast.boolop, ast.unaryop, ast.Constant,
+                                                     ast.BinOp, ast.operator, ast.IfExp))
+                                      for z in ast.walk(st.value))
+                    relaxed = stable_attr or locals_only
                     for x in _effect_nodes_between(rest):
                         if any(x is l for l in loads):
                             seen += 1
                             if seen == len(loads):
                                 break
                             continue
-                        if _is_barrier(x, expr_names):
+                        if _is_barrier(x, expr_names) and not (
+                                relaxed and not (isinstance(x, ast.Name) and x.id in expr_names)):
                             ok = False
                             break
                     if not ok:
@@ -456,7 +525,9 @@ def inline_new_locals(fn, ref_names) -> int:
                     for s_ in rest:
                         for lp in [y for y in ast.walk(s_) if isinstance(y, (ast.For, ast.While, ast.AsyncFor))]:
                             if any(any(n is l for n in ast.walk(lp)) for l in loads) and \
-                                    any(_is_barrier(z, expr_names) for z in ast.walk(lp)):
+                                    any(_is_barrier(z, expr_names) and not (
+                                        relaxed and not (isinstance(z, ast.Name) and z.id in expr_names))
+                                        for z in ast.walk(lp)):
                                 ok = False
                     if not ok:
                         continue
